@@ -80,10 +80,13 @@ def main():
     ok, info = GL.validate_encoder([os.path.join(VERIF, "grammars", f) for f in sorted(os.listdir(os.path.join(VERIF, "grammars")))])
     if not ok:
         run.inconc("encoder self-validation failed: %s" % info)
-    st, wit, dt = P.lang_diff(pa, ga.start, pb, gb.start, vocab_e, N, timeout_ms=900000)
+    cross = {"tag": "c34"}
+    st, wit, dt = P.lang_diff(pa, ga.start, pb, gb.start, vocab_e, N, timeout_ms=900000, cross=cross)
+    if cross.get("agree") is False:
+        run.inconc("solvers disagree on the C34 query: %s" % cross)
     inv = {v: k for k, v in vocab_e.items()}
     sample = {"N": N, "terminals": len(vocab_e), "productions_parol": len(pa), "productions_parol_ls": len(pb), "verdict": st, "solver_s": round(dt, 2),
-              "terminals_only_in_parol": [str(x) for x in only_a], "terminals_only_in_parol_ls": [str(x) for x in only_b]}
+              "second_opinion": {k: v for k, v in cross.items() if k != "tag"}, "terminals_only_in_parol": [str(x) for x in only_a], "terminals_only_in_parol_ls": [str(x) for x in only_b]}
     disagreements = 0
     if st == "sat":
         disagreements = 1
